@@ -174,3 +174,64 @@ def compute_contacts(ctx, case):
 
 
 contract("C16", "mdtraj/geometry/contact.py", "compute_contacts", cases=CASES, replay="contacts", covers=["returned"], max_paths=200)(compute_contacts)
+
+
+# =====================================================================================================
+def compute_rdf(ctx, case):
+    """g(r_k) = N_k / ( n_pairs * sum_f 1/V_f * 4/3 pi (e_{k+1}^3 - e_k^3) ),  r_k = (e_k + e_{k+1})/2, N_k = number of
+    (frame, pair) distances in bin k (NumPy's histogram convention); distances with the caller's periodic flag; fixed shape
+    2 frames x 2 pairs x 3 bins, symbolic distances and cell volumes."""
+    import math
+
+    ex = ctx.ex
+    interp = ctx.interp
+    interp.import_models["numpy"] = npobj.NumpyO()
+    n_frames, pairs, rng, nb = 2, [(0, 1), (2, 3)], (0.1, 0.7), 3
+    calls = []
+
+    def compute_distances(traj, p, periodic=True, opt=True):
+        p = [tuple(int(x) for x in q) for q in p]
+        calls.append((p, periodic))
+        per = core.as_bool_term(periodic)
+
+        def cell(f, k):
+            t = DIST(per, f, *p[k])
+            ex.assume(t > 0)
+            return SReal(t)
+        return npobj.oarr((n_frames, len(p)), cell)
+
+    interp.import_models["mdtraj.geometry.distance"] = Namespace("distance", compute_distances=compute_distances, compute_distances_t=None)
+    mod = ctx.module("mdtraj/geometry/rdf.py")
+    V = [ctx.real(f"V{f}") for f in range(n_frames)]
+    ctx.assume(*[v > 0 for v in V])
+
+    class T:
+        n_frames = 2
+        unitcell_volumes = npobj.oarr((n_frames,), lambda f: V[f])
+
+    periodic = ctx.bool("periodic")
+    out = ctx.call(mod.globals["compute_rdf"], T(), np.array(pairs), r_range=rng, n_bins=nb, periodic=periodic)
+    ctx.ensure("no-exception", not out.raised)
+    if out.raised:
+        return
+    ctx.cover("returned")
+    r, g = out.value
+    edges = np.linspace(rng[0], rng[1], nb + 1)
+    ctx.ensure("r=bin-centres", z3.BoolVal(len(r) == nb and all(abs(float(r[k]) - 0.5 * (edges[k] + edges[k + 1])) < 1e-12 for k in range(nb))))
+    ctx.ensure("distances-of-the-requested-pairs-with-the-caller's-periodic-flag", z3.BoolVal(len(calls) == 1 and calls[0][0] == pairs and calls[0][1] is periodic))
+    per = core.as_bool_term(periodic)
+    inv = sum(1 / rterm(v) for v in V)
+    for k in range(nb):
+        cnt = []
+        for f in range(n_frames):
+            for (a, b) in pairs:
+                d = DIST(per, f, a, b)
+                right = (d <= z3.RealVal(repr(float(edges[k + 1])))) if k == nb - 1 else (d < z3.RealVal(repr(float(edges[k + 1]))))
+                cnt.append(z3.If(z3.And(d >= z3.RealVal(repr(float(edges[k]))), right), 1, 0))
+        shell = z3.RealVal(repr(4.0 / 3.0)) * z3.RealVal(repr(math.pi)) * z3.RealVal(repr(float(edges[k + 1] ** 3 - edges[k] ** 3)))
+        ctx.ensure(f"g[{k}]*n_pairs*sum(1/V_f)*shell-volume=count(to-1e-9-in-the-shell-volume)",
+                   z3.And(rterm(g[k]) * len(pairs) * inv * shell - z3.ToReal(z3.Sum(cnt)) <= z3.RealVal("1e-9") * z3.ToReal(z3.Sum(cnt)),
+                          z3.ToReal(z3.Sum(cnt)) - rterm(g[k]) * len(pairs) * inv * shell <= z3.RealVal("1e-9") * z3.ToReal(z3.Sum(cnt))))
+
+
+contract("C16", "mdtraj/geometry/rdf.py", "compute_rdf", cases=["2x2x3"], replay="rdf", covers=["returned"], max_paths=200)(compute_rdf)
